@@ -321,6 +321,53 @@ impl<'a> G<'a> {
         }
         s
       }
+      27 | 28 if self.rng.chance(1, 3) => {
+        // two nested labelled statements with jumps to both labels (and unlabelled ones) meeting in one region, in front
+        // of a body that otherwise always returns / throws / loops; a statement after each label (seed C10-7: a summary
+        // of the breaks seen that keeps one label only)
+        self.feats.push("two-label-template");
+        let (la, lb) = (self.id("L"), self.id("L"));
+        let wrap = |k: usize, c: String| match k {
+          0 => ("{ ".to_string(), " }".to_string(), false),
+          1 => ("for (;;) { ".to_string(), " }".to_string(), true),
+          2 => (format!("while ({}) {{ ", c), " }".to_string(), true),
+          _ => ("do { ".to_string(), format!(" }} while ({});", c), true),
+        };
+        let (ka, kb) = (self.rng.below(4), self.rng.below(4));
+        let (ca, cb) = (self.cond(), self.cond());
+        let (a0, a1, a_loop) = wrap(ka, ca);
+        let (b0, b1, b_loop) = wrap(kb, cb);
+        let mut jumps = vec![format!("break {};", la), format!("break {};", lb)];
+        if a_loop {
+          jumps.push(format!("continue {};", la));
+        }
+        if b_loop {
+          jumps.push(format!("continue {};", lb));
+          jumps.push("break;".to_string());
+          jumps.push("continue;".to_string());
+        }
+        let n = self.rng.range(2, 3);
+        let mut inner = String::new();
+        for i in 0..n {
+          // the first two jumps go to the two labels (in either order), a third one is drawn
+          let j = if i < 2 { jumps[(i + (ka + kb) % 2) % 2].clone() } else { jumps[self.rng.below(jumps.len())].clone() };
+          inner.push_str(&format!("if ({}) {} ", self.cond(), j));
+        }
+        let end = match self.rng.below(5) {
+          0 if cx.in_fn => "return 1;",
+          1 => "throw e;",
+          2 => "for (;;) { f(); }",
+          3 if cx.in_fn => "return;",
+          _ => "f();",
+        };
+        let mid = if self.rng.chance(1, 2) { "g();" } else { "" };
+        let end_a = match self.rng.below(4) {
+          0 if cx.in_fn => "return 2;",
+          1 => "throw e;",
+          _ => "",
+        };
+        format!("{}: {}{}: {}{}{}{} {} {}{} h();", la, a0, lb, b0, inner, end, b1, mid, end_a, a1)
+      }
       27 | 28 => {
         self.feats.push("labeled");
         let l = self.id("L");
